@@ -22,35 +22,10 @@ theorem minAcc_some (m : Int) (t : List Int) : minAcc (some m) t = some (listMin
     simp only [minAcc, listMin]
     split <;> exact ih _
 
-/-- below a non-positive running maximum the untouched accumulator (printed as 0) is right as soon
-as some value is non-negative -/
-theorem maxAcc_none (t : List Int) (m : Int) (hm : m ≤ 0) (h : hasNonneg (m :: t) = true) :
-    (maxAcc none t).getD 0 = listMax m t := by
-  induction t generalizing m with
-  | nil =>
-    simp [hasNonneg] at h
-    simp [maxAcc, listMax]; omega
-  | cons x t ih =>
-    by_cases hx : 0 < x
-    · have hmx : m < x := by omega
-      simp [maxAcc, listMax, hx, hmx, maxAcc_some]
-    · simp only [maxAcc, listMax, hx, if_false]
-      apply ih
-      · split <;> omega
-      · simp only [hasNonneg, List.any_cons, Bool.or_eq_true, decide_eq_true_eq] at h ⊢
-        rcases h with h | h | h
-        · left; split <;> omega
-        · left; split <;> omega
-        · right; exact h
-
-theorem litMax_of_nonneg (xs : List Int) (h : hasNonneg xs = true) : specMax xs = some (litMax xs) := by
+theorem litMax_eq (xs : List Int) (h : xs ≠ []) : specMax xs = some (litMax xs) := by
   cases xs with
-  | nil => simp [hasNonneg] at h
-  | cons x t =>
-    by_cases hx : 0 < x
-    · simp [specMax, litMax, maxAcc, hx, maxAcc_some]
-    · simp only [specMax, litMax, maxAcc, hx, if_false]
-      rw [maxAcc_none t x (by omega) h]
+  | nil => exact absurd rfl h
+  | cons x t => simp [specMax, litMax, maxAcc, maxAcc_some]
 
 theorem litMin_eq (xs : List Int) : litMin xs = specMin xs := by
   cases xs with
